@@ -10,6 +10,7 @@ CONSTANTS
   Plans = {"whole", "hdr"}
   Frames <- FramesTiny
   MaxFrames = 1
+  Spellings <- SpellCanon
   Pres = {"poll", "pollpush"}
   PushPays <- PushSmallBig
 INIT MCInit
